@@ -1,6 +1,6 @@
 """Contracts for chartparse/chart.py."""
 from pyvc.contract import Contract, LoopSpec, Conc, Ghost
-from pyvc.values import INT, REAL, TD, STR, NONE, OptS, TupS, SeqS, UnionS, MapS, RecS, DictS
+from pyvc.values import INT, REAL, TD, STR, NONE, OptS, TupS, SeqS, UnionS, MapS, RecS, DictS, ViewS
 from .c_sync import _cls, BIG
 
 C = "chartparse.chart:"
@@ -78,7 +78,8 @@ def register(reg, S):
 
     # ------------------------------------------------------------------ framing of sections
     H = "chartparse.chart:Chart#_header_tag_regex_prog"
-    SECTIONS = DictS(STR, SeqS(STR))
+    # section tag -> islice view into the list of lines (the value is the pair of bounds)
+    SECTIONS = lambda env: DictS(STR, ViewS(env["lines"]))
     S["Sections"] = SECTIONS
     ghost = dict(g_k=INT, g_start=SeqS(INT), g_tag=SeqS(STR))
     # a well-formed file: g_k sections; section j occupies lines[g_start[j] : g_start[j+1]]:
@@ -89,21 +90,22 @@ def register(reg, S):
                           "and lines[g_start[j] + 1] == '{' and lines[g_start[j + 1] - 1] == '}')"),
         ("no-brace-line-inside-a-body", "forall(0, g_k, lambda j: forall(g_start[j] + 2, g_start[j + 1] - 1, lambda i: lines[i] != '{' and lines[i] != '}'))"),
         ("tags-distinct", "forall(0, g_k, lambda a: forall(a + 1, g_k, lambda b: g_tag[a] != g_tag[b]))"),
+        ("section-starts-increase", "forall(0, g_k + 1, lambda a: forall(a + 1, g_k + 1, lambda b: g_start[a] < g_start[b]))"),
     ]
     S["wf_file"] = wf_file
 
     def framed(d, upto):
         return [
             ("one-entry-per-section-in-file-order", f"len(keys_of({d})) == {upto} and forall(0, {upto}, lambda j: keys_of({d})[j] == g_tag[j])"),
-            ("each-section-gets-exactly-its-body", f"forall(0, {upto}, lambda j: g_tag[j] in {d} and len({d}[g_tag[j]]) == g_start[j + 1] - 1 - (g_start[j] + 2) "
-                                                   f"and forall(0, len({d}[g_tag[j]]), lambda i: {d}[g_tag[j]][i] == lines[g_start[j] + 2 + i]))"),
+            ("each-section-gets-exactly-its-body", f"forall(0, {upto}, lambda j: g_tag[j] in {d} and lo_of({d}[g_tag[j]]) == g_start[j] + 2 "
+                                                   f"and hi_of({d}[g_tag[j]]) == g_start[j + 1] - 1)"),
             ("no-other-key", f"forall_keys({d}, lambda key: exists(0, {upto}, lambda j: key == g_tag[j]))"),
         ]
     S["framed"] = framed
     reg.add(Contract(
         C + "Chart._partition_lines_by_data_section",
         params=dict(cls=_cls(C + "Chart"), lines=SeqS(STR)), result=SECTIONS,
-        ghost_params=ghost, requires=wf_file,
+        ghost_params=ghost, requires=wf_file, pure=False,
         ensures=framed("result", "g_k"),
         ghost_init="g_s = 0",
         ghosts=[Ghost("curr_last_line_index = i - 1", "g_s = g_s + 1")],
@@ -112,6 +114,7 @@ def register(reg, S):
             ("header-pending-iff-at-section-start", "iff(curr_header_tag is None, _it == g_start[g_s])"),
             ("current-tag", "implies(curr_header_tag is not None, g_s < g_k and curr_header_tag == g_tag[g_s])"),
             ("body-start-recorded", "implies(curr_header_tag is not None and _it >= g_start[g_s] + 2, curr_first_line_index == g_start[g_s] + 2)"),
+            ("body-start-nonneg", "curr_first_line_index is None or curr_first_line_index >= 0"),
         ] + framed("d", "g_s"))},
         locals={"d": SECTIONS, "curr_header_tag": OptS(STR), "curr_first_line_index": OptS(INT), "curr_last_line_index": OptS(INT)},
         props=["C06", "C13"]))
@@ -119,7 +122,7 @@ def register(reg, S):
     reg.add(Contract(
         C + "Chart._partition_lines_by_data_section", inst="safety", mode="safety",
         params=dict(cls=_cls(C + "Chart"), lines=SeqS(STR)), result=SECTIONS,
-        raise_allowed={"RegexNotMatchError": "True"},
-        loops={0: LoopSpec(invariants=[("trivial", "True")])},
+        raise_allowed={"RegexNotMatchError": "True"}, pure=False,
+        loops={0: LoopSpec(invariants=[("body-start-nonneg", "curr_first_line_index is None or curr_first_line_index >= 0")])},
         locals={"d": SECTIONS, "curr_header_tag": OptS(STR), "curr_first_line_index": OptS(INT), "curr_last_line_index": OptS(INT)},
         props=["C18"]))
